@@ -1034,30 +1034,6 @@ Proof.
   exact (visible_sound st i n x I Co F G V).
 Qed.
 
-Theorem history_declared_is_visible ops fl i x l d n :
-  let st := fold_left next ops (empty_state fl) in
-  wf_history ops (empty_state fl) -> flag st = false -> geti st i = Some x -> mro st (i_cls x) = Some l ->
-  in_closure st (i_cls x) d ->
-  ((exists f, declares_feat st d n f) \/ (exists s, declares_op st d n s)) ->
-  visible st i n.
-Proof.
-  intros st W F G M R D. destruct (history_full_facts ops fl W F) as (I & Fu & Co).
-  exact (declared_is_visible st i x l d n I Fu Co F G M R D).
-Qed.
-
-Theorem history_visible_iff_declared ops fl i x l n :
-  let st := fold_left next ops (empty_state fl) in
-  wf_history ops (empty_state fl) -> flag st = false -> geti st i = Some x -> mro st (i_cls x) = Some l ->
-  ns_get n (i_dict x) = None ->
-  (forall d b, ns_get n (ns_of st d) = Some (EBeh b) -> exists s, declares_op st d n s) ->
-  (visible st i n <->
-   exists d, in_closure st (i_cls x) d /\
-     ((exists f, declares_feat st d n f) \/ (exists s, declares_op st d n s))).
-Proof.
-  intros st W F G M D NB. destruct (history_full_facts ops fl W F) as (I & Fu & Co).
-  exact (visible_iff_declared st i x l n I Fu Co F G M D NB).
-Qed.
-
 Theorem history_declared_feature_lookup ops fl c l d n f :
   let st := fold_left next ops (empty_state fl) in
   wf_history ops (empty_state fl) -> flag st = false -> mro st c = Some l -> in_closure st c d ->
@@ -1069,11 +1045,240 @@ Proof.
   exact (declared_feature_lookup st c l d n f I Fu Co F M R D U).
 Qed.
 
-Theorem history_isinstance_closure ops fl i c x l :
+(* ---------- every instance keeps an existing class ---------- *)
+
+Definition IC (st : state) : Prop := forall i x, geti st i = Some x -> getc st (i_cls x) <> None.
+
+Definition dom_le (st st' : state) : Prop := forall c, getc st c <> None -> getc st' c <> None.
+
+Definition irel (st st' : state) : Prop :=
+  forall j x', geti st' j = Some x' -> exists x, geti st j = Some x /\ i_cls x = i_cls x'.
+
+Lemma IC_step st st' : dom_le st st' -> irel st st' -> IC st -> IC st'.
+Proof.
+  intros Dl Ir H j x' G'. destruct (Ir j x' G') as (x & G & E). rewrite <- E. apply Dl. eapply H; eauto.
+Qed.
+
+Lemma irel_insts st st' : insts st' = insts st -> irel st st'.
+Proof. intros E j x' G. exists x'. split; [|reflexivity]. unfold geti in *. rewrite E in G. exact G. Qed.
+
+Lemma irel_trans a b c : irel a b -> irel b c -> irel a c.
+Proof.
+  intros H1 H2 j x'' G. destruct (H2 j x'' G) as (x' & G' & E'). destruct (H1 j x' G') as (x & G0 & E).
+  exists x. split; [assumption|congruence].
+Qed.
+
+Lemma irel_set_slot st i n s : irel st (set_slot st i n s).
+Proof.
+  unfold set_slot. destruct (geti st i) as [x|] eqn:G; [|apply irel_insts; reflexivity].
+  intros j x' G'. unfold geti, seti in *. simpl insts in G'.
+  destruct (i <? 0) eqn:Ei; [discriminate|]. destruct (j <? 0) eqn:Ej; [discriminate|].
+  destruct (Nat.eq_dec (Z.to_nat i) (Z.to_nat j)) as [E|N].
+  - rewrite <- E in *. rewrite nth_error_set_at_same in G' by (eapply nth_error_Some_lt; eauto).
+    inversion G'; subst x'. exists x. split; [assumption|reflexivity].
+  - rewrite nth_error_set_at_other in G' by assumption. exists x'. split; [assumption|reflexivity].
+Qed.
+
+Lemma dom_le_crel (R : cls -> cls -> Prop) st st' : crel R st st' -> dom_le st st'.
+Proof.
+  intros (A & _) c H. specialize (A c). unfold orel2 in A. destruct (getc st c); [|congruence].
+  destruct (getc st' c); [discriminate|destruct A].
+Qed.
+
+Lemma dom_le_steqv st st' : steqv st st' -> dom_le st st'.
+Proof.
+  intros A c H. specialize (A c). unfold orel in A. destruct (getc st c); [|congruence].
+  destruct (getc st' c); [discriminate|destruct A].
+Qed.
+
+Lemma dom_le_trans a b c : dom_le a b -> dom_le b c -> dom_le a c.
+Proof. intros H1 H2 x H. apply H2. apply H1. exact H. Qed.
+
+Lemma dom_le_update_supertypes st c st' r : update_supertypes st c = (st', r) -> dom_le st st'.
+Proof.
+  intros U. destruct (update_supertypes_spec _ _ _ _ U) as [[_ E]|(_ & k & bs & G & _ & E)].
+  - apply dom_le_steqv. exact E.
+  - eapply dom_le_trans; [|apply dom_le_steqv; exact E].
+    apply (dom_le_crel (fun _ _ => True)). eapply crel_setc; eauto.
+Qed.
+
+(* the class side never touches the instances *)
+Lemma hier_insts fuel : forall st x st', hier fuel st x = Some st' -> insts st' = insts st.
+Proof.
+  induction fuel as [|f IH]; intros st x st' H; [discriminate|]. simpl in H.
+  destruct (getc st x) as [k|]; [|discriminate].
+  destruct (linearize_cached st x (c_bases k)) as [l|]; [|discriminate].
+  revert H. change (insts st) with (insts (setc st x (with_mro l k))). generalize (setc st x (with_mro l k)).
+  induction (c_subs k) as [|d r IHr]; intros s0 H; simpl in H.
+  - inversion H; subst. reflexivity.
+  - destruct (hier f s0 d) as [s1|] eqn:E; [|rewrite fold_obind_None in H; discriminate].
+    rewrite (IHr _ H). eapply IH; eauto.
+Qed.
+
+Lemma fold_upd_insts (F : cls -> cls) l : forall st,
+  insts (fold_left (fun s b => upd_cls s b F) l st) = insts st.
+Proof.
+  induction l as [|b r IH]; intros st; simpl; [reflexivity|]. rewrite IH.
+  unfold upd_cls. destruct (getc st b); reflexivity.
+Qed.
+
+Lemma assign_insts st c bs st' : assign st c bs = Some st' -> insts st' = insts st.
+Proof.
+  intros A. destruct (assign_unfold _ _ _ _ A) as (k & st2 & G & _ & Hh & E). subst st'.
+  unfold add_sub, remove_sub. rewrite !fold_upd_insts. rewrite (hier_insts _ _ _ _ Hh). reflexivity.
+Qed.
+
+Lemma update_supertypes_insts st c st' r : update_supertypes st c = (st', r) -> insts st' = insts st.
+Proof.
+  unfold update_supertypes.
+  repeat match goal with |- context [assign ?a c ?d] => let E := fresh "A" in destruct (assign a c d) eqn:E end;
+    intros H; inversion H; subst; try reflexivity;
+    match goal with A : assign _ _ _ = Some _ |- _ => rewrite (assign_insts _ _ _ _ A); reflexivity end.
+Qed.
+
+Lemma irel_refl st : irel st st.
+Proof. apply irel_insts. reflexivity. Qed.
+
+Lemma irel_getattr st i n : irel st (fst (getattr_m st i n)).
+Proof.
+  unfold getattr_m. destruct (geti st i) as [x|]; [|apply irel_refl].
+  destruct (class_lookup st (i_cls x) n) as [[f|s|b]|]; destruct (ns_get n (i_dict x)) as [[? ?|? ?|?]|];
+    simpl; try apply irel_refl; apply irel_set_slot.
+Qed.
+
+Lemma irel_setattr st i n v : irel st (fst (setattr_m st i n v)).
+Proof.
+  unfold setattr_m. destruct (geti st i) as [x|]; [|apply irel_refl].
+  destruct (class_lookup st (i_cls x) n) as [[f|s|b]|]; simpl; try apply irel_set_slot.
+  destruct (ns_get n (i_dict x)) as [sl|]; simpl.
+  - destruct sl as [fs v0|fs vs|v0]; simpl; try apply irel_refl.
+    destruct (conforms st (f_type fs) v); simpl; [apply irel_set_slot|apply irel_refl].
+  - destruct (default_slot f) as [fs v0|fs vs|v0]; simpl; try apply irel_set_slot.
+    destruct (conforms _ (f_type fs) v); simpl; [|apply irel_set_slot].
+    eapply irel_trans; apply irel_set_slot.
+Qed.
+
+Lemma irel_append st i n v : irel st (fst (append_m st i n v)).
+Proof.
+  unfold append_m. pose proof (irel_getattr st i n) as G.
+  destruct (getattr_m st i n) as [st1 g]. simpl in G.
+  destruct (geti st1 i) as [x|]; [|assumption].
+  destruct (ns_get n (i_dict x)) as [[? ?|f vs|?]|]; try assumption.
+  destruct (conforms st1 (f_type f) v && negb ((v =? -1) && (0 <? f_type f))); simpl; [|assumption].
+  eapply irel_trans; [exact G|apply irel_set_slot].
+Qed.
+
+Lemma insts_upd_cls st c f : insts (upd_cls st c f) = insts st.
+Proof. unfold upd_cls. destruct (getc st c); reflexivity. Qed.
+
+Theorem step_IC o st : IC st -> IC (next st o).
+Proof.
+  intros H. destruct (graph_op o) eqn:GO.
+  - destruct o; try discriminate; unfold next; simpl.
+    + (* NewClass *)
+      unfold new_class.
+      match goal with |- context [update_supertypes ?s1 ?c1] =>
+        destruct (update_supertypes s1 c1) as [st2 e] eqn:U; assert (H1 : IC s1) end.
+      { intros j x G. specialize (H j x G). rewrite getc_new_class.
+        destruct (Z.eq_dec (i_cls x) (Z.of_nat (S (nclasses st)))); [discriminate|assumption]. }
+      assert (H2 : IC st2).
+      { eapply IC_step; [eapply dom_le_update_supertypes; eauto|apply irel_insts; eapply update_supertypes_insts; eauto|exact H1]. }
+      destruct e; exact H2.
+    + (* AddSuper *)
+      destruct (getc st c) as [k|] eqn:G; simpl; [|exact H].
+      set (ss := if zmem s (c_supers k) then c_supers k else c_supers k ++ [s]).
+      destruct (update_supertypes (set_supers st c ss) c) as [st2 e] eqn:U.
+      assert (H2 : IC st2).
+      { eapply IC_step; [eapply dom_le_update_supertypes; eauto|apply irel_insts; eapply update_supertypes_insts; eauto|].
+        eapply IC_step; [apply (dom_le_crel _ _ _ (crel_set_supers st c ss))|apply irel_insts|exact H].
+        unfold set_supers. destruct (getc st c); reflexivity. }
+      destruct e; exact H2.
+    + (* RemoveSuper *)
+      destruct (getc st c) as [k|] eqn:G; simpl; [|exact H].
+      destruct (remove_first Z.eqb s (c_supers k)) as [ss|]; simpl; [|exact H].
+      destruct (update_supertypes (set_supers st c ss) c) as [st2 e] eqn:U.
+      assert (H2 : IC st2).
+      { eapply IC_step; [eapply dom_le_update_supertypes; eauto|apply irel_insts; eapply update_supertypes_insts; eauto|].
+        eapply IC_step; [apply (dom_le_crel _ _ _ (crel_set_supers st c ss))|apply irel_insts|exact H].
+        unfold set_supers. destruct (getc st c); reflexivity. }
+      destruct e; exact H2.
+  - pose proof (dom_le_crel _ _ _ (step_other_crel o st GO)) as Dl.
+    assert (NI : forall c, o = NewInst c -> IC (next st o)).
+    { intros c E. subst o. unfold next. simpl. destruct (getc st c) as [k|] eqn:G; simpl; [|exact H].
+      intros j x' G'. change (getc st (i_cls x') <> None).
+      unfold geti in G'. simpl insts in G'. destruct (j <? 0); [discriminate|].
+      apply nth_error_In in G'. apply in_app_or in G'. destruct G' as [G'|[G'|[]]].
+      - apply In_nth_error in G'. destruct G' as (m & Em). apply (H (Z.of_nat m) x').
+        unfold geti. destruct (Z.ltb_spec (Z.of_nat m) 0); [lia|]. rewrite Nat2Z.id. exact Em.
+      - subst x'. simpl. congruence. }
+    destruct o; try discriminate; try (eapply NI; reflexivity);
+      (eapply IC_step; [exact Dl| |exact H]); unfold next; simpl.
+    + destruct (getc st c); simpl; apply irel_insts; reflexivity.
+    + destruct (getc st c) as [k|]; simpl; [|apply irel_refl].
+      destruct (remove_feat n (c_feats k)); simpl; [|apply irel_refl].
+      destruct (ns_del n (c_ns k)); simpl; apply irel_insts; reflexivity.
+    + destruct (getc st c) as [k|]; simpl; [|apply irel_refl].
+      destruct (del_all (c_ns k) (map f_name (c_feats k))). simpl. apply irel_insts; reflexivity.
+    + unfold add_oper. destruct (getc st c) as [k|]; simpl; [|apply irel_refl].
+      destruct (py_def (to_code (o_name o) (o_params o))) as [[]|s]; simpl; [apply irel_insts; reflexivity|].
+      apply irel_insts. rewrite insts_upd_cls. reflexivity.
+    + destruct (getc st c) as [k|]; simpl; [|apply irel_refl].
+      destruct (remove_oper n (c_ops k)); simpl; [|apply irel_refl].
+      destruct (ns_del (normalized_name n) (c_ns k)); simpl; apply irel_insts; reflexivity.
+    + destruct (getc st c) as [k|]; simpl; [|apply irel_refl].
+      destruct (del_all (c_ns k) (map (fun o => normalized_name (o_name o)) (c_ops k))). simpl. apply irel_insts; reflexivity.
+    + destruct (getc st c); simpl; apply irel_insts; reflexivity.
+    + pose proof (irel_getattr st i n) as C. destruct (getattr_m st i n) as [st1 g]. simpl in C. destruct g; exact C.
+    + apply irel_setattr.
+    + apply irel_append.
+    + pose proof (irel_getattr st i n) as C. destruct (getattr_m st i n) as [st1 g]. simpl in C. destruct g; exact C.
+    + pose proof (irel_getattr st i n) as C. destruct (getattr_m st i n) as [st1 g]. simpl in C. destruct g; exact C.
+Qed.
+
+Lemma IC_empty fl : IC (empty_state fl).
+Proof. intros i x G. unfold geti, empty_state in G. simpl in G. destruct (i <? 0); [discriminate|]. destruct (Z.to_nat i); discriminate. Qed.
+
+Theorem history_IC ops : forall st, IC st -> IC (fold_left next ops st).
+Proof. induction ops as [|o r IH]; intros st H; simpl; [exact H|]. apply IH. apply step_IC. exact H. Qed.
+
+Lemma IC_mro st i x : IC st -> geti st i = Some x -> exists l, mro st (i_cls x) = Some l.
+Proof.
+  intros H G. specialize (H i x G). destruct (getc st (i_cls x)) as [k|] eqn:Gk; [|congruence].
+  exists (c_mro k). apply mro_getc. exact Gk.
+Qed.
+
+Theorem history_declared_is_visible ops fl i x d n :
   let st := fold_left next ops (empty_state fl) in
-  sides ops (empty_state fl) -> flag st = false -> geti st i = Some x -> mro st (i_cls x) = Some l -> c <> 0 ->
+  wf_history ops (empty_state fl) -> flag st = false -> geti st i = Some x ->
+  in_closure st (i_cls x) d ->
+  ((exists f, declares_feat st d n f) \/ (exists s, declares_op st d n s)) ->
+  visible st i n.
+Proof.
+  intros st W F G R D. destruct (history_full_facts ops fl W F) as (I & Fu & Co).
+  destruct (IC_mro st i x (history_IC ops _ (IC_empty fl)) G) as (l & M).
+  exact (declared_is_visible st i x l d n I Fu Co F G M R D).
+Qed.
+
+Theorem history_visible_iff_declared ops fl i x n :
+  let st := fold_left next ops (empty_state fl) in
+  wf_history ops (empty_state fl) -> flag st = false -> geti st i = Some x ->
+  ns_get n (i_dict x) = None ->
+  (forall d b, ns_get n (ns_of st d) = Some (EBeh b) -> exists s, declares_op st d n s) ->
+  (visible st i n <->
+   exists d, in_closure st (i_cls x) d /\
+     ((exists f, declares_feat st d n f) \/ (exists s, declares_op st d n s))).
+Proof.
+  intros st W F G D NB. destruct (history_full_facts ops fl W F) as (I & Fu & Co).
+  destruct (IC_mro st i x (history_IC ops _ (IC_empty fl)) G) as (l & M).
+  exact (visible_iff_declared st i x l n I Fu Co F G M D NB).
+Qed.
+
+Theorem history_isinstance_closure ops fl i c x :
+  let st := fold_left next ops (empty_state fl) in
+  sides ops (empty_state fl) -> flag st = false -> geti st i = Some x -> c <> 0 ->
   (isinstance_m st i c = true <-> in_closure st (i_cls x) c).
 Proof.
-  intros st S F G M N. destruct (history_sound_facts ops fl S F) as [I Co].
+  intros st S F G N. destruct (history_sound_facts ops fl S F) as [I Co].
+  destruct (IC_mro st i x (history_IC ops _ (IC_empty fl)) G) as (l & M).
   exact (isinstance_closure st i c x l I Co F G M N).
 Qed.
